@@ -68,6 +68,8 @@ def invoke(rec, sts, form, sg=1.0, idx=None):
         return f(sts, indices=list(idx), **kw)
     if form == "idx_np":
         return f(sts, indices=np.array(idx), **kw)
+    if form == "idx_tuple":
+        return f(tuple(sts), indices=tuple(idx), **kw)
     if form == "sub":
         return f(sub, **kw)
     if form == "args":
@@ -82,7 +84,7 @@ def forms_for(rec):
     fn = cl["fn"]
     if fn == "filter":
         return ["sub"]
-    forms = ["idx", "sub", "idx_np"]
+    forms = ["idx", "sub", "idx_np", "idx_tuple"]
     if fn in ARGS_FNS and (len(cl["idx"]) > 2 or fn == "dir_values"):
         forms.append("args")
     if fn in BI_FNS and len(cl["idx"]) == 2:
@@ -562,6 +564,13 @@ def chk_reconcile(rec, be):
             a = _outcome(lambda: f(inp, dict(kw)))
             b = _outcome(lambda: f(clean, dict(kw, Reconcile=False)))
             _cmp_outcomes(out, "%s[%s]%s" % (name, be, kw or ""), hdrs, a, b, sg)
+            if b[0] == "ok":
+                csnap = snapshot(clean)
+                _scribble(b[1])
+                if not unchanged(clean, csnap):
+                    out.append(_mm(name, "%s[%s] %s: the returned object shares an array with an input train "
+                                         "(writing to the result changed the input)" % (name, be, hdrs)))
+                    return n, out
             if not unchanged(inp, snap):
                 out.append(_mm(name, "%s[%s] %s: the call modified its input trains" % (name, be, hdrs)))
                 return n, out
@@ -575,6 +584,23 @@ def chk_reconcile(rec, be):
                     out.append(_mm(name, "%s[%s] %s: the call modified its input trains" % (name, be, hdrs)))
                     return n, out
     return n, out
+
+
+def _scribble(r):
+    """write into every array of a returned object (profile, train list, matrix, value list)"""
+    try:
+        if isinstance(r, (list, tuple)):
+            for x in r:
+                _scribble(x)
+            return
+        for name in ("x", "y", "y1", "y2", "mp", "spikes"):
+            v = getattr(r, name, None)
+            if isinstance(v, np.ndarray) and v.size and v.flags.writeable:
+                v += 1.0
+        if isinstance(r, np.ndarray) and r.size and r.flags.writeable and r.dtype.kind == "f":
+            r += 1.0
+    except Exception:
+        pass
 
 
 def _cmp_outcomes(out, sub, hdrs, a, b, sg):
@@ -647,7 +673,7 @@ def chk_multi_wf(rec, be):
     modes = [None] + (["auto"] if fr(rec["mrts"]) == 0 else [])
     for mode in modes:
         for form in forms_for(rec):
-            if form == "idx_np" or (mode == "auto" and form not in ("idx", "sub")):
+            if form in ("idx_np", "idx_tuple") or (mode == "auto" and form not in ("idx", "sub")):
                 continue
             if mode is None:
                 st, r = call(invoke, rec, sts, form)
